@@ -162,6 +162,19 @@ func (c *Ctx) Violation(sig, what string, scenario interface{}) {
 	c.viol[sig] = &Violation{Sig: sig, What: what, Count: 1, Scenario: scenario}
 }
 
+// Crumb writes the scenario about to be executed to the breadcrumb file, so that a worker killed
+// by a fatal error (which Go cannot recover) is attributed to that execution by the driver.
+func (c *Ctx) Crumb(sigctx string, scenario interface{}) {
+	p := os.Getenv("VERIF_CRUMB")
+	if p == "" {
+		return
+	}
+	b, err := json.Marshal(map[string]interface{}{"sigctx": sigctx, "scenario": scenario})
+	if err == nil {
+		os.WriteFile(p, b, 0o644)
+	}
+}
+
 // NViolations returns the number of distinct signatures so far.
 func (c *Ctx) NViolations() int { c.mu.Lock(); defer c.mu.Unlock(); return len(c.viol) }
 
